@@ -1,4 +1,573 @@
-import RattrModel.FnAnalyser
+/-
+  C17 — undefined-name warnings track Python's local binding rules.
+
+  Model: `FnA.getAndVerify` (= `get_and_verify_name`), the context registrations / removals of the
+  visitor (`addIdentifiers`, `removeIdentifiers`, `addArguments`, `withRegister`, push / pop) and
+  `FnA.analyse` — RattrModel/FnAnalyser.lean; the scope chain — RattrModel/Context.lean.
+
+  Proved for all inputs:
+    * `C17_no_warning_when_bound` (+ `…_name_load`): a nameable whose BASE is in the context chain
+      is never diagnosed;
+    * `C17_warns_when_unbound`, `C17_store_never_warns`, `C17_literal_never_warns`;
+    * `C17_params_bound`: all five kinds of parameter are in the context when the body starts;
+    * `C17_assignment_registers` (+ bare-name / tuple corollaries, and the `for`, `with`,
+      comprehension, plain-assignment paths): targets are registered BEFORE anything is visited;
+    * `C17_scope_balance`: the depth of the scope chain after visiting ANY node equals the depth
+      before (whole mutual block: comprehension / lambda / nested def push and pop, the custom
+      analysers, `visit_ReturnValue`, the assignment diversions) — for a non-empty chain, which is
+      what `analyse` provides (`C17_analyse_restores_depth`);
+    * `C17_attr_store_registers_base` / `C17_attr_del_removes_base`: `unravel_names` yields the BASE
+      name of an attribute / item target — the root of two defect classes.
+  `C17_full` (the per-construct clauses of the property this model can express) is false:
+  `C17_full_false`, with one `C17_cex_*` per known-finding class, each a kernel evaluation of
+  `FnA.analyse` on a minimal body.
+-/
+import RattrProofs.Lemmas.VisitCtx
+
 namespace Rattr.C17
-theorem placeholder : True := trivial
+open Rattr Rattr.FnA Rattr.Strs
+
+def undefinedWarning (x : Str) : Diag := mkDiag .warning "undefined" x
+
+/-! ### `get_and_verify_name` -/
+
+/-- no diagnostic when the base name is visible in the scope chain: the continuation receives the
+state unchanged. -/
+theorem C17_no_warning_when_bound (s : St) (n : Node) (c : ECtx) (k : St → Str → Str → Res)
+    (base full : Str) (hn : namesOf true n = .ok base full)
+    (hb : Context.contains s.ctx base = true) :
+    getAndVerify s n c k = k s base full := by
+  rw [getAndVerify_ok s n c k base full hn, verifySt_bound s base c hb]
+
+/-- in particular loading (or deleting) a bound bare name leaves `diags` unchanged. -/
+theorem C17_no_warning_name (env : Env) (mn : Str) (x : Str) (c : ECtx) (s : St)
+    (hb : Context.contains s.ctx x = true) :
+    ∃ s', visit env mn (.name x c) s = .ok s' ∧ s'.diags = s.diags ∧ s'.ctx = s.ctx := by
+  rw [visit.eq_def]
+  simp only []
+  rw [C17_no_warning_when_bound s _ c _ x x (by simp [namesOf]) hb]
+  refine ⟨_, rfl, ?_, ?_⟩ <;> cases c <;> rfl
+
+/-- the same for any compound name `x.a`, `x[i]`, `*x`, `x.a.b[i]` … with a nameable value part:
+only the BASE matters. -/
+theorem C17_no_warning_attr (env : Env) (mn : Str) (v : Node) (a : Str) (c : ECtx) (s : St)
+    (base full : Str) (hv : v.isNameable = true) (hn : namesOf true (.attr v a c) = .ok base full)
+    (hb : Context.contains s.ctx base = true) :
+    ∃ s', visit env mn (.attr v a c) s = .ok s' ∧ s'.diags = s.diags ∧ s'.ctx = s.ctx := by
+  rw [visit.eq_def]
+  simp only []
+  rw [C17_no_warning_when_bound s _ c _ base full hn hb]
+  simp only [hv, Bool.not_true, Bool.false_eq_true, if_false, FnA.bind]
+  refine ⟨_, rfl, ?_, ?_⟩ <;> cases c <;> rfl
+
+/-- an unbound, non-literal base that is loaded or deleted gets exactly one `undefined` warning. -/
+theorem C17_warns_when_unbound (env : Env) (mn : Str) (x : Str) (c : ECtx) (s : St)
+    (hc : c ≠ .store) (hb : Context.contains s.ctx x = false) (hat : startsWith x ['@'] = false) :
+    ∃ s', visit env mn (.name x c) s = .ok s' ∧ s'.diags = s.diags ++ [undefinedWarning x] ∧
+      s'.ctx = s.ctx := by
+  rw [visit.eq_def]
+  simp only []
+  rw [getAndVerify_ok s _ c _ x x (by simp [namesOf]), verifySt_unbound s x c hb hc hat]
+  refine ⟨_, rfl, ?_, ?_⟩ <;> cases c <;> rfl
+
+/-- a store never warns, bound or not. -/
+theorem C17_store_never_warns (env : Env) (mn : Str) (x : Str) (s : St) :
+    ∃ s', visit env mn (.name x .store) s = .ok s' ∧ s'.diags = s.diags ∧ s'.ctx = s.ctx := by
+  rw [visit.eq_def]
+  simp only []
+  rw [getAndVerify_ok s _ .store _ x x (by simp [namesOf]), verifySt_store]
+  exact ⟨_, rfl, rfl, rfl⟩
+
+/-- literal stand-ins (`@Constant`, `@BinOp`, …) never warn. -/
+theorem C17_literal_never_warns (s : St) (n : Node) (c : ECtx) (k : St → Str → Str → Res)
+    (base full : Str) (hn : namesOf true n = .ok base full) (hat : startsWith base ['@'] = true) :
+    getAndVerify s n c k = k s base full := by
+  rw [getAndVerify_ok s n c k base full hn]
+  simp [verifySt, hat]
+
+/-! ### parameters -/
+
+/-- `analyse` starts the body in a state whose context contains every parameter: positional-only,
+positional, `*vararg`, keyword-only, `**kwarg`; no diagnostics yet. -/
+theorem C17_params_bound (env : Env) (mn : Str) (root : Context) (ps : Params) (body : List Node) :
+    ∃ s0 : St,
+      analyse env mn root ps body
+        = (visitList env mn body s0 >>>= fun s => .ok { s with ctx := Context.pop s.ctx }) ∧
+      s0.diags = [] ∧
+      ∀ x, (x ∈ ps.posonly ∨ x ∈ ps.args ∨ ps.vararg = some x ∨ x ∈ ps.kwonly ∨ ps.kwarg = some x) →
+        Context.contains s0.ctx x = true := by
+  refine ⟨addArguments { ctx := Context.push root } ps, rfl, rfl, ?_⟩
+  intro x hx
+  exact addArguments_contains _ ps x ((mem_params_all ps x).mpr hx)
+
+/-- everything visible at module level (builtins, imports, definitions) stays visible. -/
+theorem C17_root_names_bound (root : Context) (ps : Params) (x : Str)
+    (h : Context.contains root x = true) :
+    Context.contains (addArguments { ctx := Context.push root } ps).ctx x = true := by
+  rw [addArguments_ctx]
+  exact Context.contains_addNames_mono _ _ x (by simpa using h)
+
+/-! ### `unravel_names`: what a target registers / a `del` removes -/
+
+theorem unravelNames_name (x : Str) (c : ECtx) : unravelNames (.name x c) = .ok [x] := by
+  simp [unravelNames, Node.isNameable, namesOf]
+
+theorem unravelNamesL_names (xs : List Str) (c : ECtx) :
+    unravelNamesL (xs.map fun x => Node.name x c) = .ok xs := by
+  induction xs with
+  | nil => simp [unravelNamesL]
+  | cons x r ih => simp [unravelNamesL, unravelNames_name, ih]
+
+theorem unravelNames_tuple (xs : List Str) (c c' : ECtx) :
+    unravelNames (.seq "Tuple".toList (xs.map fun x => Node.name x c) c') = .ok xs := by
+  simp [unravelNames, unravelNamesL_names]
+
+/-- for an attribute target `x.a` it is the BASE name `x` that is yielded. -/
+theorem C17_attr_target_unravels_to_base (x a : Str) (c c' : ECtx) :
+    unravelNames (.attr (.name x c) a c') = .ok [x] := by
+  simp [unravelNames, Node.isNameable, namesOf]
+
+/-- likewise for an item target `x[i]`. -/
+theorem C17_item_target_unravels_to_base (x : Str) (i : Node) (c c' : ECtx) :
+    unravelNames (.sub (.name x c) i c') = .ok [x] := by
+  simp [unravelNames, Node.isNameable, namesOf]
+
+/-- defect root (missing-warning classes): `p.attr = …` REGISTERS `p`. -/
+theorem C17_attr_store_registers_base (s : St) (p a : Str) (c : ECtx) :
+    ∃ s', addIdentifiers s (.attr (.name p c) a .store) = .ok s' ∧
+      Context.contains s'.ctx p = true ∧ s'.diags = s.diags := by
+  simp only [addIdentifiers, C17_attr_target_unravels_to_base]
+  exact ⟨_, rfl, Context.contains_add _ _, rfl⟩
+
+/-- defect root (spurious-warning class): `del p.attr` REMOVES `p` from the innermost scope. -/
+theorem C17_attr_del_removes_base (s : St) (p a : Str) (c : ECtx) :
+    removeIdentifiers s (.attr (.name p c) a .del) = .ok { s with ctx := Context.remove s.ctx p } := by
+  simp [removeIdentifiers, C17_attr_target_unravels_to_base]
+
+/-- … so a parameter `p` (bound once in the function's own scope, not visible outside) is no
+longer in the context after `del p.attr`. -/
+theorem C17_attr_del_unbinds_param (sc : Scope) (r : Context) (p : Str)
+    (hnd : (Dict.keys sc).Nodup) (hout : Context.contains r p = false) :
+    Context.contains (Context.remove (sc :: r) p) p = false := by
+  unfold Context.contains at *
+  rw [Context.get?_remove_self sc r p hnd]
+  exact hout
+
+/-! ### registration happens before visiting -/
+
+/-- `add_identifiers_to_context(target)`: every unravelled name is visible afterwards; nothing else
+about the state changes. -/
+theorem C17_assignment_registers (s s' : St) (t : Node) (names : List Str)
+    (hu : unravelNames t = .ok names) (h : addIdentifiers s t = .ok s') :
+    (∀ x ∈ names, Context.contains s'.ctx x = true) ∧
+    (∀ x, Context.contains s.ctx x = true → Context.contains s'.ctx x = true) ∧
+    s'.diags = s.diags := by
+  simp only [addIdentifiers, hu] at h
+  injection h with h
+  subst h
+  exact ⟨fun x hx => Context.contains_addNames _ _ x hx,
+         fun x hx => Context.contains_addNames_mono _ _ x hx, rfl⟩
+
+theorem C17_bare_name_registers (s : St) (x : Str) (c : ECtx) :
+    ∃ s', addIdentifiers s (.name x c) = .ok s' ∧ Context.contains s'.ctx x = true := by
+  simp only [addIdentifiers, unravelNames_name]
+  exact ⟨_, rfl, Context.contains_add _ _⟩
+
+theorem C17_tuple_registers (s : St) (xs : List Str) (c c' : ECtx) :
+    ∃ s', addIdentifiers s (.seq "Tuple".toList (xs.map fun x => Node.name x c) c') = .ok s' ∧
+      ∀ x ∈ xs, Context.contains s'.ctx x = true := by
+  simp only [addIdentifiers, unravelNames_tuple]
+  exact ⟨_, rfl, fun x hx => Context.contains_addNames _ _ x hx⟩
+
+theorem addIdentifiers_mono (s s' : St) (t : Node) (h : addIdentifiers s t = .ok s') (x : Str)
+    (hx : Context.contains s.ctx x = true) : Context.contains s'.ctx x = true := by
+  unfold addIdentifiers at h
+  split at h
+  · injection h with h; subst h; exact Context.contains_addNames_mono _ _ x hx
+  · cases h
+  · cases h
+
+theorem addIdentifiers_diags (s s' : St) (t : Node) (h : addIdentifiers s t = .ok s') :
+    s'.diags = s.diags := by
+  unfold addIdentifiers at h
+  split at h
+  · injection h with h; subst h; rfl
+  · cases h
+  · cases h
+
+/-- several targets (`a = b = …`, the `optional_vars` list): every target's names are visible. -/
+theorem C17_targets_register (s s' : St) (ts : List Node) (h : addIdentifiersL s ts = .ok s') :
+    (∀ t ∈ ts, ∀ names, unravelNames t = .ok names → ∀ x ∈ names, Context.contains s'.ctx x = true) ∧
+    (∀ x, Context.contains s.ctx x = true → Context.contains s'.ctx x = true) ∧
+    s'.diags = s.diags := by
+  induction ts generalizing s with
+  | nil =>
+    simp only [addIdentifiersL] at h
+    injection h with h; subst h
+    exact ⟨(by intro t ht; cases ht), fun _ h => h, rfl⟩
+  | cons t r ih =>
+    simp only [addIdentifiersL, FnA.bind] at h
+    cases h1 : addIdentifiers s t with
+    | ok s1 =>
+      simp only [h1] at h
+      obtain ⟨ihA, ihM, ihD⟩ := ih s1 h
+      refine ⟨?_, fun x hx => ihM x (addIdentifiers_mono s s1 t h1 x hx), ?_⟩
+      · intro t' ht' names hu x hx
+        rcases List.mem_cons.mp ht' with e | ht'
+        · subst e
+          exact ihM x ((C17_assignment_registers s s1 t' names hu h1).1 x hx)
+        · exact ihA t' ht' names hu x hx
+      · rw [ihD, addIdentifiers_diags s s1 t h1]
+    | fatal s1 d => simp [h1] at h
+    | crash s1 e => simp [h1] at h
+
+/-- plain / annotated / augmented / walrus assignment (no lambda, namedtuple or class on the
+right): when the diversion hands back to `generic_visit`, the targets are already registered —
+BEFORE the value is visited. -/
+theorem C17_assign_registers_before_visit (env : Env) (mn : Str) (targets : List Node) (v : Node)
+    (s s1 : St) (h : assignDiv env mn targets v s = .generic s1) :
+    (∀ t ∈ targets, ∀ names, unravelNames t = .ok names →
+      ∀ x ∈ names, Context.contains s1.ctx x = true) ∧ s1.diags = s.diags := by
+  have key : addIdentifiersL s targets = .ok s1 := by
+    rw [assignDiv.eq_def] at h
+    simp only [] at h
+    repeat' split at h
+    all_goals cases h
+    all_goals assumption
+  have := C17_targets_register s s1 targets key
+  exact ⟨this.1, this.2.2⟩
+
+/-- `for t in it:` — the target is registered first, then target, iterable, body, orelse are
+visited in a state where it is visible. -/
+theorem C17_for_registers (env : Env) (mn : Str) (t iter : Node) (body orelse : List Node) (s : St)
+    (names : List Str) (hu : unravelNames t = .ok names) :
+    ∃ s1 : St,
+      visit env mn (.forLoop t iter body orelse) s
+        = (visit env mn t s1 >>>= fun s => visit env mn iter s >>>= fun s =>
+            visitList env mn body s >>>= fun s => visitList env mn orelse s) ∧
+      (∀ x ∈ names, Context.contains s1.ctx x = true) ∧ s1.diags = s.diags := by
+  rw [visit.eq_def]
+  simp only [addIdentifiers, hu, FnA.bind]
+  exact ⟨_, rfl, fun x hx => Context.contains_addNames _ _ x hx, rfl⟩
+
+/-- comprehension `for t in it if …`: the target is registered (in the comprehension's scope)
+before target, iterable and conditions are visited. -/
+theorem C17_comprehension_registers (env : Env) (mn : Str) (t iter : Node) (ifs : List Node) (s : St)
+    (names : List Str) (hu : unravelNames t = .ok names) :
+    ∃ s1 : St,
+      visit env mn (.gen t iter ifs) s
+        = (visit env mn t s1 >>>= fun s => visit env mn iter s >>>= fun s => visitList env mn ifs s) ∧
+      (∀ x ∈ names, Context.contains s1.ctx x = true) ∧ s1.diags = s.diags := by
+  rw [visit.eq_def]
+  simp only [addIdentifiers, hu, FnA.bind]
+  exact ⟨_, rfl, fun x hx => Context.contains_addNames _ _ x hx, rfl⟩
+
+theorem withRegister_spec (items : List Node) (s s1 : St) (h : withRegister items s = .ok s1) :
+    (∀ ce vars, Node.withitem ce vars ∈ items → ∀ v ∈ vars, ∀ names, unravelNames v = .ok names →
+      ∀ x ∈ names, Context.contains s1.ctx x = true) ∧
+    (∀ x, Context.contains s.ctx x = true → Context.contains s1.ctx x = true) ∧
+    s1.diags = s.diags := by
+  induction items generalizing s with
+  | nil =>
+    simp only [withRegister] at h
+    injection h with h; subst h
+    exact ⟨(by intro _ _ hm; cases hm), fun _ h => h, rfl⟩
+  | cons it r ih =>
+    have other : ∀ s, (∀ ce vars, it ≠ .withitem ce vars) → withRegister r s = .ok s1 →
+        (∀ ce vars, Node.withitem ce vars ∈ it :: r → ∀ v ∈ vars, ∀ names, unravelNames v = .ok names →
+          ∀ x ∈ names, Context.contains s1.ctx x = true) ∧
+        (∀ x, Context.contains s.ctx x = true → Context.contains s1.ctx x = true) ∧
+        s1.diags = s.diags := by
+      intro s hne h
+      obtain ⟨a, b, c⟩ := ih s h
+      refine ⟨?_, b, c⟩
+      intro ce vars hm
+      rcases List.mem_cons.mp hm with e | hm
+      · exact absurd e.symm (hne ce vars)
+      · exact a ce vars hm
+    cases it with
+    | withitem ce0 vars0 =>
+      simp only [withRegister, FnA.bind] at h
+      cases h1 : addIdentifiersL s vars0 with
+      | ok s2 =>
+        simp only [h1] at h
+        obtain ⟨a, b, c⟩ := ih s2 h
+        obtain ⟨a1, b1, c1⟩ := C17_targets_register s s2 vars0 h1
+        refine ⟨?_, fun x hx => b x (b1 x hx), by rw [c, c1]⟩
+        intro ce vars hm v hv names hu x hx
+        rcases List.mem_cons.mp hm with e | hm
+        · injection e with e1 e2
+          subst e2
+          exact b x (a1 v hv names hu x hx)
+        · exact a ce vars hm v hv names hu x hx
+      | fatal s2 d => simp [h1] at h
+      | crash s2 e => simp [h1] at h
+    | _ => exact other s (by intro ce vars e; cases e) (by simpa [withRegister] using h)
+
+/-- `with ce as v, …:` — every item's `optional_vars` is registered before any item is visited. -/
+theorem C17_with_registers (env : Env) (mn : Str) (items body : List Node) (s s1 : St)
+    (h : withRegister items s = .ok s1) :
+    visit env mn (.withStmt items body) s
+      = (visitList env mn items s1 >>>= fun s => visitList env mn body s) ∧
+    (∀ ce vars, Node.withitem ce vars ∈ items → ∀ v ∈ vars, ∀ names, unravelNames v = .ok names →
+      ∀ x ∈ names, Context.contains s1.ctx x = true) ∧ s1.diags = s.diags := by
+  refine ⟨?_, (withRegister_spec items s s1 h).1, (withRegister_spec items s s1 h).2.2⟩
+  rw [visit.eq_def]
+  simp only [h, FnA.bind]
+
+/-! ### scope balance -/
+
+/-- visiting ANY node leaves the depth of the scope chain as it was (whenever the visit ends
+normally): comprehension / lambda / nested def push and pop; the `sorted` / `defaultdict` custom
+analysers, the assignment diversions, `visit_ReturnValue` never leak a scope.  The chain must be
+non-empty (`Context.add` on an empty chain creates the first scope); `analyse` always provides
+that. -/
+theorem C17_scope_balance (env : Env) (mn : Str) (nd : Node) (s s' : St) (hne : s.ctx ≠ [])
+    (h : visit env mn nd s = .ok s') : s'.ctx.length = s.ctx.length :=
+  visit_bal env mn nd s.ctx.length s (List.length_pos_iff.mpr hne) rfl s' h
+
+theorem C17_scope_balance_list (env : Env) (mn : Str) (l : List Node) (s s' : St) (hne : s.ctx ≠ [])
+    (h : visitList env mn l s = .ok s') : s'.ctx.length = s.ctx.length :=
+  visitList_bal env mn l s.ctx.length s (List.length_pos_iff.mpr hne) rfl s' h
+
+/-- the assignment diversions keep the depth, whether they finish the statement or hand back. -/
+theorem C17_scope_balance_assign (env : Env) (mn : Str) (targets : List Node) (v : Node) (s : St)
+    (hne : s.ctx ≠ []) :
+    (∀ s', assignDiv env mn targets v s = .done (.ok s') → s'.ctx.length = s.ctx.length) ∧
+    (∀ s', assignDiv env mn targets v s = .generic s' → s'.ctx.length = s.ctx.length) := by
+  have h := assignDiv_bal env mn targets v s.ctx.length s (List.length_pos_iff.mpr hne) rfl
+  constructor
+  · intro s' e; rw [e] at h; exact h s' rfl
+  · intro s' e; rw [e] at h; exact h
+
+/-- `visit_ReturnValue` with a balanced continuation is balanced. -/
+theorem C17_scope_balance_return (env : Env) (mn : Str) (nd : Node) (s s' : St) (k : St → Bool → Res)
+    (hne : s.ctx ≠ [])
+    (hk : ∀ s1 b s2, s1.ctx.length = s.ctx.length → k s1 b = .ok s2 → s2.ctx.length = s.ctx.length)
+    (h : visitReturnValue env mn nd s k = .ok s') : s'.ctx.length = s.ctx.length :=
+  retVal_bal env mn nd s.ctx.length s k (List.length_pos_iff.mpr hne) rfl
+    (fun s1 b h1 s2 e => hk s1 b s2 h1 e) s' h
+
+/-- `analyse` hands back the scope chain at the depth of the root context it was given: the
+function's own scope is popped, nothing else was left behind. -/
+theorem C17_analyse_restores_depth (env : Env) (mn : Str) (root : Context) (ps : Params)
+    (body : List Node) (s' : St) (h : analyse env mn root ps body = .ok s') :
+    s'.ctx.length = root.length := by
+  unfold analyse at h
+  have hb : Bal (root.length + 1) (visitList env mn body (addArguments { ctx := Context.push root } ps)) :=
+    visitList_bal env mn body _ _ (by omega)
+      (addArguments_length' _ ps (by omega) (by simp))
+  cases hv : visitList env mn body (addArguments { ctx := Context.push root } ps) with
+  | ok s1 =>
+    simp only [hv, FnA.bind] at h
+    injection h with h
+    subst h
+    have := hb s1 hv
+    simp [Context.length_pop, this]
+  | fatal s1 d => simp [hv, FnA.bind] at h
+  | crash s1 e => simp [hv, FnA.bind] at h
+
+/-! ### use after `del` -/
+
+theorem C17_del_removes_name (s : St) (x : Str) (c : ECtx) :
+    removeIdentifiers s (.name x c) = .ok { s with ctx := Context.remove s.ctx x } := by
+  simp [removeIdentifiers, unravelNames_name]
+
+/-- must-warn after `del x`: for a local `x` (bound once in the function's scope, not visible at
+module level) the name is out of the context after the removal, so — by
+`C17_warns_when_unbound` — every later load of `x` in that scope is diagnosed. -/
+theorem C17_must_warn_after_del (env : Env) (mn : Str) (sc : Scope) (r : Context) (x : Str) (s : St)
+    (hctx : s.ctx = Context.remove (sc :: r) x)
+    (hnd : (Dict.keys sc).Nodup) (hout : Context.contains r x = false)
+    (hat : startsWith x ['@'] = false) :
+    ∃ s', visit env mn (.name x .load) s = .ok s' ∧ s'.diags = s.diags ++ [undefinedWarning x] ∧
+      s'.ctx = s.ctx :=
+  C17_warns_when_unbound env mn x .load s (by simp)
+    (by rw [hctx]; exact C17_attr_del_unbinds_param sc r x hnd hout) hat
+
+/-! ### the full statement over this model, and why it is false -/
+
+def diagsOf : Res → List Diag
+  | .ok s => s.diags
+  | .fatal s _ => s.diags
+  | .crash s _ => s.diags
+
+/-- was a "potentially undefined" warning about `x` emitted during the run? -/
+def warned (r : Res) (x : Str) : Bool := (diagsOf r).contains (undefinedWarning x)
+
+/-- how many. -/
+def warnCount (r : Res) (x : Str) : Nat := (diagsOf r).count (undefinedWarning x)
+
+def ld (x : Str) : Node := .name x .load
+
+/-- `del x` of a bound variable is not itself a use of an undefined name. -/
+def C17_clause_del_statement : Prop :=
+  ∀ (env : Env) (mn : Str) (root : Context) (ps : Params) (x : Str), x ∈ ps.all →
+    warned (analyse env mn root ps [.delete [.name x .del]]) x = false
+
+/-- deleting an attribute never undefines its base variable. -/
+def C17_clause_attr_del : Prop :=
+  ∀ (env : Env) (mn : Str) (root : Context) (ps : Params) (p a b : Str), p ∈ ps.all →
+    warned (analyse env mn root ps [.delete [.attr (ld p) a .del], .attr (ld p) b .load]) p = false
+
+/-- assigning an attribute never DEFINES its base variable: a base bound nowhere still warns. -/
+def C17_clause_attr_store : Prop :=
+  ∀ (env : Env) (mn : Str) (root : Context) (ps : Params) (n a b q : Str), q ∈ ps.all → n ∉ ps.all →
+    Context.contains root n = false → startsWith n ['@'] = false →
+    2 ≤ warnCount (analyse env mn root ps [.assign [.attr (ld n) a .store] (ld q), .attr (ld n) b .load]) n
+
+/-- a walrus inside a comprehension binds in the enclosing function. -/
+def C17_clause_walrus_in_comprehension : Prop :=
+  ∀ (env : Env) (mn : Str) (root : Context) (ps : Params) (l x y a b k : Str), l ∈ ps.all →
+    warned (analyse env mn root ps
+      [ .comp k [ld y] [.gen (.name x .store) (ld l) [.walrus (.name y .store) (.attr (ld x) a .load)]],
+        .attr (ld y) b .load ]) y = false
+
+/-- the right-hand side runs before the target is (re)bound: `x -= x` with `x` unbound warns. -/
+def C17_clause_rhs_before_target : Prop :=
+  ∀ (env : Env) (mn : Str) (c : Context) (x : Str), c ≠ [] → Context.contains c x = false →
+    startsWith x ['@'] = false →
+    warned (visit env mn (.augAssign (.name x .store) (ld x)) { ctx := c }) x = true
+
+/-- what the visitor's bookkeeping would have to satisfy for the property to hold on the
+constructs this model can express (the except-handler / match-capture names are not even part of
+the visited tree: see `C17_cex_except_handler`, `C17_cex_match_capture`). -/
+def C17_full : Prop :=
+  C17_clause_del_statement ∧ C17_clause_attr_del ∧ C17_clause_attr_store ∧
+  C17_clause_walrus_in_comprehension ∧ C17_clause_rhs_before_target
+
+/-! #### counterexamples: `FnA.analyse` on minimal bodies, by kernel evaluation -/
+
+def env1 : Env := ⟨⟨[], []⟩, []⟩
+def S (x : String) : Str := x.toList
+def fSym : Sym := { kind := .func, name := S "f", callable := true, iface := some ⟨[], [S "z"], none, [], none⟩ }
+def kSym : Sym := { kind := .builtin, name := S "K", callable := true }
+/-- module level: a function `f`, a builtin `K` (think `KeyError`). -/
+def root1 : Context := [[(S "f", fSym), (S "K", kSym)]]
+def P (l : List String) : Params := ⟨[], l.map S, none, [], none⟩
+def at' (x a : String) (c : ECtx := .load) : Node := .attr (ld (S x)) (S a) c
+/-- the arguments of the `undefined` warnings of a run, in order (`none` = did not end normally). -/
+def undefs : Res → Option (List Str)
+  | .ok s => some ((s.diags.filter fun d => d.tmpl = S "undefined").map (·.arg))
+  | _ => none
+def run (ps : List String) (body : List Node) : Option (List Str) :=
+  undefs (analyse env1 [] root1 (P ps) body)
+
+/-- `def w(a): x = a.v; del x` — warns about `x` ON the `del` statement (removal precedes the visit). -/
+theorem C17_cex_del_statement_itself :
+    run ["a"] [.assign [.name (S "x") .store] (at' "a" "v"), .delete [.name (S "x") .del]]
+      = some [S "x"] := by decide +kernel
+
+/-- `def w(p): del p.t; p.u` — `p` is removed by `del p.t`: two warnings about the parameter. -/
+theorem C17_cex_del_attribute_undefines_base :
+    run ["p"] [.delete [at' "p" "t" .del], at' "p" "u"] = some [S "p", S "p"] := by decide +kernel
+
+/-- `try: a.x` / `except K as e: e.g` — the handler's name is a `str` field, not a child node, and
+there is no `visit_ExceptHandler`: `e` is never registered. -/
+theorem C17_cex_except_handler :
+    run ["a"] [.other (S "Try") [at' "a" "x", .other (S "ExceptHandler") [ld (S "K"), at' "e" "g"]]]
+      = some [S "e"] := by decide +kernel
+
+/-- `match a.m:` / `case [u, *v]: u.p` — captures are not registered. -/
+theorem C17_cex_match_capture :
+    run ["a"] [.other (S "Match") [at' "a" "m", .other (S "match_case")
+        [.other (S "MatchSequence") [.other (S "MatchAs") [], .other (S "MatchStar") []], at' "u" "p"]]]
+      = some [S "u"] := by decide +kernel
+
+/-- `def w(l): [y for x in l if (y := x.v)]; y.t` — the walrus is registered in the comprehension's
+scope (no warning for the element `y`), popped with it, and `y.t` warns. -/
+theorem C17_cex_walrus_in_comprehension :
+    run ["l"] [.comp (S "ListComp") [ld (S "y")]
+                 [.gen (.name (S "x") .store) (ld (S "l")) [.walrus (.name (S "y") .store) (at' "x" "v")]],
+               at' "y" "t"] = some [S "y"] := by decide +kernel
+
+/-- `def w(a): n.t = a; n.u` — `n` is bound nowhere, yet NO warning: the attribute store registered
+the base name before the target was visited, and a store never warns. -/
+theorem C17_cex_attr_store_defines_base :
+    run ["a"] [.assign [at' "n" "t" .store] (ld (S "a")), at' "n" "u"] = some [] := by decide +kernel
+
+/-- `def w(a, b): del b; b.s = a; b.t` — after `del b` the attribute store re-registers `b`: only
+the (spurious) warning of the `del` statement, none for the later uses. -/
+theorem C17_cex_attr_store_rebinds_after_del :
+    run ["a", "b"] [.delete [.name (S "b") .del], .assign [at' "b" "s" .store] (ld (S "a")), at' "b" "t"]
+      = some [S "b"] := by decide +kernel
+
+/-- `def w(x): del x; x -= f(x)` — the target of the augmented assignment is registered BEFORE the
+right-hand side is visited: the run has exactly the warnings of `del x` alone; the loads of the
+unbound `x` in `x -= f(x)` add none. -/
+theorem C17_cex_rebound_by_same_statement :
+    run ["x"] [.delete [.name (S "x") .del],
+               .augAssign (.name (S "x") .store) (.call (ld (S "f")) [ld (S "x")] [] [])]
+      = run ["x"] [.delete [.name (S "x") .del]] ∧
+    run ["x"] [.delete [.name (S "x") .del]] = some [S "x"] := by decide +kernel
+
+/-- TEST (sanity of the machinery, one concrete run): a name bound nowhere is warned about once;
+parameters, module-level names and earlier assignments are not. -/
+theorem C17_test_basic :
+    run ["a"] [at' "q" "t", at' "a" "t", .assign [.name (S "x") .store] (ld (S "K")), at' "x" "t",
+               .call (ld (S "f")) [ld (S "a")] [] []] = some [S "q"] := by decide +kernel
+
+theorem C17_clause_del_statement_false : ¬ C17_clause_del_statement := by
+  intro h
+  have := h env1 [] root1 (P ["x"]) (S "x") (by decide)
+  revert this; decide +kernel
+
+theorem C17_clause_attr_del_false : ¬ C17_clause_attr_del := by
+  intro h
+  have := h env1 [] root1 (P ["p"]) (S "p") (S "t") (S "u") (by decide)
+  revert this; decide +kernel
+
+theorem C17_clause_attr_store_false : ¬ C17_clause_attr_store := by
+  intro h
+  have := h env1 [] root1 (P ["a"]) (S "n") (S "t") (S "u") (S "a") (by decide) (by decide)
+    (by decide) (by decide)
+  revert this; decide +kernel
+
+theorem C17_clause_walrus_in_comprehension_false : ¬ C17_clause_walrus_in_comprehension := by
+  intro h
+  have := h env1 [] root1 (P ["l"]) (S "l") (S "x") (S "y") (S "v") (S "t") (S "ListComp") (by decide)
+  revert this; decide +kernel
+
+theorem C17_clause_rhs_before_target_false : ¬ C17_clause_rhs_before_target := by
+  intro h
+  have := h env1 [] [[]] (S "x") (by decide) (by decide) (by decide)
+  revert this; decide +kernel
+
+theorem C17_full_false : ¬ C17_full := fun h => C17_clause_del_statement_false h.1
+
+/-! ### non-vacuity of the general theorems -/
+
+example : Context.contains (addArguments { ctx := Context.push root1 } (P ["a"])).ctx (S "a") = true := by
+  decide
+example : ∃ s', visit env1 [] (ld (S "K")) { ctx := root1 } = .ok s' ∧ s'.diags = [] ∧ s'.ctx = root1 :=
+  C17_no_warning_name env1 [] (S "K") .load { ctx := root1 } (by decide)
+example : ∃ s', visit env1 [] (ld (S "q")) { ctx := root1 } = .ok s' ∧
+    s'.diags = [] ++ [undefinedWarning (S "q")] ∧ s'.ctx = root1 :=
+  C17_warns_when_unbound env1 [] (S "q") .load { ctx := root1 } (by decide) (by decide) (by decide)
+example : unravelNames (.seq (S "Tuple") [.name (S "a") .store, .name (S "b") .store] .store)
+    = .ok [S "a", S "b"] := unravelNames_tuple [S "a", S "b"] .store .store
+
+/-- a body that pushes and pops three scopes: comprehension inside a lambda inside a nested def. -/
+def nested : Node :=
+  .funcDef (S "g") (P ["u"]) [.lam (P ["v"])
+    (.comp (S "ListComp") [ld (S "x")] [.gen (.name (S "x") .store) (ld (S "u")) []])]
+
+/-- the balance theorem applied to it … -/
+example : ∀ s', visit env1 [] nested { ctx := Context.push root1 } = .ok s' → s'.ctx.length = 2 :=
+  fun s' h => C17_scope_balance env1 [] nested { ctx := Context.push root1 } s' (by decide) h
+
+/-- … and the run does end normally (TEST, kernel evaluation), so the hypothesis is satisfiable. -/
+theorem C17_test_nested_scopes_run :
+    (match visit env1 [] nested { ctx := Context.push root1 } with
+     | .ok s => some s.ctx.length
+     | _ => none) = some 2 := by decide +kernel
+
+/-- the non-emptiness hypothesis of `C17_scope_balance` is needed in the MODEL (never arises in
+rattr, where the root context always exists): on an empty chain `Context.add` creates the first
+scope. -/
+theorem C17_balance_needs_nonempty_chain :
+    (match visit env1 [] (.assign [.name (S "x") .store] .const) { ctx := [] } with
+     | .ok s => s.ctx.length
+     | _ => 0) = 1 := by decide +kernel
+
 end Rattr.C17
